@@ -119,6 +119,37 @@ theorem lqr_feasible (sol : Solver ℝ ns nc) (S : Sys ℝ ns nc) (P : Prob ℝ 
 
 /-! ### clause 4: global minimiser (linear time-varying systems, PD `Q_t`, all dimensions and horizons) -/
 
+/-! ### the gain matrices belong to the problem -/
+
+/-- **`K_t` (and the `Quu_t`, `Qux_t` handed to Cholesky) do not depend on the nominal trajectory nor on the start**: for every linear
+(time-varying) system, every cost, every solver — no positivity, no contract, no scope hypothesis needed — two solves with different
+`u_traj` and different `x_init` compute the same list of `(K_t, Quu_t, Qux_t)`. Only `k_t` carries the nominal (the delta formulation);
+this is what lets the `gains` stream compare `K` across nominals and what makes `cholesky_precondition` a statement about the problem. -/
+theorem gains_independent_of_nominal_and_start (sol : Solver ℝ ns nc)
+    (A : Nat → Mat ℝ ns ns) (B : Nat → Mat ℝ ns nc) (c : Nat → Vec ℝ ns) (P : Prob ℝ ns nc) (dt : Nat)
+    (x0 x0' : Vec ℝ ns) (ubar ubar' : Nat → Vec ℝ nc) :
+    (lqr sol (Sys.linear A B c) P dt x0' ubar').gains.map (fun g => (g.K, g.Quu, g.Qux))
+      = (lqr sol (Sys.linear A B c) P dt x0 ubar).gains.map (fun g => (g.K, g.Quu, g.Qux)) := by
+  unfold lqr lqrAt
+  simp only
+  exact (bwFrom_KV_indep sol A B c P dt _ _ ubar' ubar P.T 0).2
+
+/-- hence the final solve of `MPC.forward` on a linear system uses the gain matrices of the plain LQR solve, whatever the loop did -/
+theorem mpc_linear_gains (sol : Solver ℝ ns nc)
+    (A : Nat → Mat ℝ ns ns) (B : Nat → Mat ℝ ns nc) (c : Nat → Vec ℝ ns) (P : Prob ℝ ns nc) (dt : Nat)
+    (x0 : Vec ℝ ns) (fuel : Nat) (st : Stepper ℝ) (uinit : Option (List (Vec ℝ nc))) (ubar : Nat → Vec ℝ nc) :
+    (mpc sol (Sys.linear A B c) P dt x0 fuel st uinit).1.gains.map (fun g => (g.K, g.Quu, g.Qux))
+      = (lqr sol (Sys.linear A B c) P dt x0 ubar).gains.map (fun g => (g.K, g.Quu, g.Qux)) := by
+  rw [mpc_is_lqr]
+  exact gains_independent_of_nominal_and_start sol A B c P dt x0 x0 ubar _
+
+/-- non-vacuity: the statement has no hypotheses; a concrete instance (identity costs, `dt = 3`, two different constant nominals) -/
+example (sol : Solver ℝ ns nc) (A : Nat → Mat ℝ ns ns) (B : Nat → Mat ℝ ns nc) (c : Nat → Vec ℝ ns) (x0 x0' : Vec ℝ ns)
+    (u1 u2 : Vec ℝ nc) :
+    (lqr sol (Sys.linear A B c) ⟨5, fun _ => idMat (ns + nc), fun _ => vzero⟩ 3 x0' (fun _ => u2)).gains.map (fun g => (g.K, g.Quu, g.Qux))
+      = (lqr sol (Sys.linear A B c) ⟨5, fun _ => idMat (ns + nc), fun _ => vzero⟩ 3 x0 (fun _ => u1)).gains.map (fun g => (g.K, g.Quu, g.Qux)) :=
+  gains_independent_of_nominal_and_start sol A B c _ 3 x0 x0' _ _
+
 /-! ### the error path: `cholesky` is never called outside its domain -/
 
 /-- **accepted inputs satisfy the solver's precondition** (ANY system — linear or not —, any nominal, any clock): when
@@ -304,6 +335,54 @@ theorem lqr_value_function (x0 x0' : Vec ℝ ns) (ubar ubar' : Nat → Vec ℝ n
     linarith
   rw [h0, ← hpol]
   exact hv
+
+/-- **the feedback POLICY is independent of the nominal** (the delta formulation collapses at the level of the control law, not only of
+the returned trajectory): writing the forward pass as `u_t = K_t x_t + κ_t` with `κ_t = k_t − K_t x̄_t + ū_t`, both `K_t`
+(`gains_independent_of_nominal_and_start`) and the offset `κ_t` are the same for every nominal trajectory `u_traj`, at every step `t < T`. -/
+theorem feedback_law_nominal_independent (x0 : Vec ℝ ns) (ubar ubar' : Nat → Vec ℝ nc) (g0 : Gain ℝ ns nc) (t : Nat) (ht : t < P.T) :
+    let xbar := nth (rollFrom (Sys.linear A B c) ubar 0 0 P.T x0)
+    let xbar' := nth (rollFrom (Sys.linear A B c) ubar' 0 0 P.T x0)
+    let g := (lqr sol (Sys.linear A B c) P dt x0 ubar).gains.getD t g0
+    let g' := (lqr sol (Sys.linear A B c) P dt x0 ubar').gains.getD t g0
+    toM g'.K = toM g.K ∧
+    toFn g'.k - toM g'.K *ᵥ toFn (xbar' t) + toFn (ubar' t) = toFn g.k - toM g.K *ᵥ toFn (xbar t) + toFn (ubar t) := by
+  intro xbar xbar' g g'
+  obtain ⟨hu, hx, _⟩ := nominal_independent_psd sol hsol A B c P dt hQ hlin x0 ubar ubar'
+  have hKm := gains_independent_of_nominal_and_start sol A B c P dt x0 x0 ubar ubar'
+  have hK : g'.K = g.K := by
+    have := congrArg (fun m => (m.getD t (g0.K, g0.Quu, g0.Qux)).1) hKm
+    simpa [g, g', List.getD_eq_getElem?_getD] using this
+  have hlen : ∀ ub : Nat → Vec ℝ nc, (lqr sol (Sys.linear A B c) P dt x0 ub).gains.length = P.T := by
+    intro ub; unfold lqr lqrAt; simp only; rw [bwFrom_length]
+  -- the t-th input as the feedback law at the t-th state, for both nominals
+  have hin : ∀ ub : Nat → Vec ℝ nc,
+      nth (lqr sol (Sys.linear A B c) P dt x0 ub).u t
+        = ctrl (nth (rollFrom (Sys.linear A B c) ub 0 0 P.T x0)) ub ((lqr sol (Sys.linear A B c) P dt x0 ub).gains.getD t g0) t
+            (nth (lqr sol (Sys.linear A B c) P dt x0 ub).x t) := by
+    intro ub
+    have hl := hlen ub
+    unfold lqr lqrAt resetClock at hl ⊢
+    simp only at hl ⊢
+    have := fwFrom_input (Sys.linear A B c) P (nth (rollFrom (Sys.linear A B c) ub 0 0 P.T x0)) ub g0 t 0 x0 _ (by rw [hl]; exact ht)
+    simpa using this
+  have h1 := congrArg toFn (hin ubar)
+  have h2 := congrArg toFn (hin ubar')
+  rw [ctrl_eq] at h1 h2
+  rw [hu, hx] at h2
+  refine ⟨by rw [hK], ?_⟩
+  have hK' : toM g'.K = toM g.K := by rw [hK]
+  have e : toM g'.K *ᵥ (toFn (nth (lqr sol (Sys.linear A B c) P dt x0 ubar).x t) - toFn (xbar' t)) + toFn g'.k + toFn (ubar' t)
+      = toM g.K *ᵥ (toFn (nth (lqr sol (Sys.linear A B c) P dt x0 ubar).x t) - toFn (xbar t)) + toFn g.k + toFn (ubar t) := by
+    rw [← h1]; exact h2.symm
+  rw [hK'] at e ⊢
+  simp only [Matrix.mulVec_sub] at e
+  have := e
+  -- cancel K x_t on both sides
+  have hc : ∀ (a b k1 k2 u1 u2 z : Fin nc → ℝ), z - a + k1 + u1 = z - b + k2 + u2 → k1 - a + u1 = k2 - b + u2 := by
+    intro a b k1 k2 u1 u2 z h
+    have : k1 - a + u1 = (z - a + k1 + u1) - z := by abel
+    rw [this, h]; abel
+  exact hc _ _ _ _ _ _ _ this
 
 end optimalPSD
 
@@ -688,6 +767,15 @@ non-trivial instance of the conclusion's right-hand side: with `V_0 = 1` (1×1) 
 `d = 3` changes the optimal cost by `2·3 + ½·3·1·3 = 10.5` -/
 example : ((fun _ : Fin 1 => (2:ℝ)) ⬝ᵥ fun _ => (3:ℝ)) + (1:ℝ)/2 * ((fun _ : Fin 1 => (3:ℝ)) ⬝ᵥ (1 : Matrix (Fin 1) (Fin 1) ℝ) *ᵥ fun _ => (3:ℝ)) = 10.5 := by
   simp [dotProduct]; norm_num
+
+/-- `feedback_law_nominal_independent`: its hypotheses are exactly those of `lqr_optimal_psd` / `nominal_independent_psd`; they hold e.g.
+for "no state cost, unit input cost", any time-invariant `A, B`, any `dt`, any horizon (a non-trivial instance: `K_t ≠ 0` in general) -/
+example (A0 : Mat ℝ ns ns) (B0 : Mat ℝ ns nc) (dt T : Nat) (p : Nat → Vec ℝ (ns + nc)) :
+    let P : Prob ℝ ns nc := ⟨T, fun _ => rMat ns nc, p⟩
+    (∀ s, s < P.T → CostOK (toM (P.Q s))) ∧
+    (∀ s, s + 1 < P.T → (fun _ : Nat => A0) (s * dt) = (fun _ : Nat => A0) s ∧ (fun _ : Nat => B0) (s * dt) = (fun _ : Nat => B0) s) := by
+  intro P
+  exact ⟨fun _ _ => rMat_costOK ns nc, fun _ _ => ⟨rfl, rfl⟩⟩
 
 /-- time-invariant systems satisfy `hlin` for every `dt` -/
 example (A0 : Mat ℝ ns ns) (B0 : Mat ℝ ns nc) (dt T : Nat) :
